@@ -10,6 +10,7 @@ import (
 	"fmt"
 	"os"
 	"path/filepath"
+	"runtime"
 	"sync"
 
 	"github.com/free5gc/nas"
@@ -66,8 +67,16 @@ func program(seed uint64, shared *nas.Message, ops int) string {
 			var key [16]byte
 			key[0] = byte(x)
 			p := make([]byte, int(x%40))
-			mac, err := security.NASMacCalculate(uint8(1+x%3), key, uint32(x), uint8(x%32), uint8(x%2), p)
+			mac, err := security.NASMacCalculate(uint8(x%4), key, uint32(x), uint8(x%32), uint8(x%2), p)
 			w("m%x%v", mac, err == nil)
+			// the result belongs to the caller: build the protected message on it, as senders do
+			msg := append(mac, byte(x), byte(x>>8), byte(x>>16))
+			msg = append(msg, p[:len(p)%9]...)
+			if len(mac) > 0 {
+				mac[0] ^= byte(x >> 24)
+			}
+			runtime.Gosched()
+			w("%x", msg)
 		case 3: // accessors on an own element
 			var g nasType.GUTI5G
 			g.SetAMFSetID(uint16(x))
